@@ -14,7 +14,7 @@ META = dict(
     technique="exhaustive enumeration of coefficient/azimuth value combinations, comparing the aberration function before and after the round trip",
     text="All value combinations (3 magnitudes x 5 azimuths) for each supported (C, phi) pair, all pairs of pairs, the round symmetric terms "
          "and a dense set are converted polar->cartesian->polar; the aberration function of the result is compared with the original on a "
-         "6 x 16 (alpha, phi) grid with a float64 reference and additionally through abTEM's kernel.",
+         "6 x 16 (alpha, phi) grid with a float64 reference and additionally through abTEM's kernel. All ordered pairs (thorough: triples) of 5 coefficient sets are converted first and used afterwards (deferred round trips) with snapshots of every returned dict.",
     note="Bound: the stated value alphabet. The coefficients themselves may legitimately differ (sign/azimuth ambiguity); only chi is compared.",
 )
 PAIRS = [("C12", "phi12"), ("C21", "phi21"), ("C23", "phi23"), ("C32", "phi32"), ("C34", "phi34")]
